@@ -418,6 +418,12 @@ def _discharge_list(ex, obls, timeout_ms, use_cvc5, cvc5_agree, refuted_names):
         for p in ob.pc:
             s.add(p)
         rec = {"name": ob.name, "kind": ob.kind, "label": ob.label, "line": ob.line, "backend": "z3"}
+        if ob.info.get("undecidable"):
+            rec["status"] = "unknown"
+            rec["reason"] = "clause not evaluable on this code: %s" % ob.info["undecidable"]
+            rec["time"] = 0.0
+            results.append(rec)
+            continue
         if ob.kind == "cover":
             # vacuity guard: only `unsat` (a contradictory precondition / dead function) is an error;
             # with quantified hypotheses `unknown` is the normal answer, so the budget is small
